@@ -23,7 +23,7 @@ from typing import Any, Callable, Dict, List, Optional, Tuple
 HERE = os.path.dirname(os.path.abspath(__file__))
 VERIF = os.path.dirname(HERE)
 REPO = os.environ.get("RL4CO_REPO", "/repo")
-OUT = os.path.join(VERIF, "lean", "Rl4co", "Generated", "Params.lean")
+OUT = os.path.join(os.environ.get("VERIF_LEAN_DIR") or os.path.join(VERIF, "lean"), "Rl4co", "Generated", "Params.lean")
 
 CMP = {ast.Lt: "lt", ast.LtE: "le", ast.Gt: "gt", ast.GtE: "ge", ast.Eq: "eq", ast.NotEq: "ne"}
 FLIP = {"lt": "gt", "le": "ge", "gt": "lt", "ge": "le", "eq": "eq", "ne": "ne"}
